@@ -282,6 +282,9 @@ def check_argorder(n_vars):
             for as_var in (False, True):
                 res.path_assertions += 1
                 lv = [p.Variable(n) if as_var else n for n in listed]
+                # the listing may be any iterable: a list, a tuple, a one-shot iterator
+                if rnd == 1 and len(listed) >= 2:
+                    lv = iter(list(lv)) if as_var else tuple(lv)
                 try:
                     ce = pymbolic.compile(expr, lv)
                     order = list(listed) + sorted(set(pool) - set(listed))
